@@ -1,3 +1,4 @@
+import re
 """
 Generator for creating mock method implementations.
 
@@ -97,7 +98,8 @@ class MockGenerator:
                     if sig_stripped.endswith(":") and not sig_stripped.endswith(","):
                         # Check if AsyncIterator in return type
                         full_sig = " ".join(signature_lines)
-                        is_async_generator = "AsyncIterator" in full_sig
+                        # (the return annotation only: a parameter or model whose name contains the word is no stream)
+                        is_async_generator = re.search(r"->\s*AsyncIterator\[", full_sig) is not None
                         break
                     temp_i += 1
 
